@@ -367,9 +367,29 @@ func (r *renderer) renderDefs(f *file) {
 				if fl.Tag != "" {
 					tag = " `" + fl.Tag + "`"
 				}
-				f.p("\t%s %s%s\n", fl.Name, r.typeExpr(f, fl.T), tag)
+				if fl.Embedded {
+					f.p("\t%s%s\n", r.typeExpr(f, fl.T), tag)
+				} else {
+					f.p("\t%s %s%s\n", fl.Name, r.typeExpr(f, fl.T), tag)
+				}
 			}
 			f.p("}\n\n")
+			if len(t.Impls) > 0 {
+				recv := t.Name
+				self := "x"
+				if t.PtrRecv {
+					recv = "*" + t.Name
+					self = "*x"
+				}
+				f.p("func (x %s) VDesc() string { return Desc_%s(%s) }\n", recv, t.Name, self)
+				ms := map[string]bool{}
+				for _, i := range t.Impls {
+					r.markers(i, ms)
+				}
+				for _, m := range sortedKeys(ms) {
+					f.p("func (x %s) %s() {}\n", recv, m)
+				}
+			}
 			f.p("func Desc_%s(x %s) string {\n\treturn \"{\"", t.Name, t.Name)
 			for i, fl := range t.Fields {
 				sep := ""
@@ -437,6 +457,10 @@ func (r *renderer) renderFunc(f *file, fn *Func) {
 		args = ", " + strings.Join(descs, ", ")
 	}
 	f.p("\tid, fail := %sCall(%q, %v%s)\n", f.vt(), fn.Name, fn.Err, args)
+	if fn.Extra != "" {
+		f.vt()
+		f.p("\t%s\n", fn.Extra)
+	}
 	if fn.Err {
 		f.p("\tif fail {\n\t\treturn %s", r.mintExpr(f, fn.Out, "-1"))
 		if fn.Cleanup {
